@@ -122,6 +122,31 @@ def _pinref(reg, p):
     return {"k": "x", "t": type(p).__name__, "i": 0, "q": 0}
 
 
+LOOKUP_VALUES = []   # set by the flow for naming scopes: values asked of every naming scope
+
+
+def _lookup_table(reg):
+    from spydrnet.util.get_libraries import get_libraries
+    from spydrnet.util.get_definitions import get_definitions
+    from spydrnet.util.get_ports import get_ports
+    from spydrnet.util.get_cables import get_cables
+    from spydrnet.util.get_instances import get_instances
+    fns = {"N": [("L", get_libraries)], "L": [("D", get_definitions)],
+           "D": [("P", get_ports), ("C", get_cables), ("I", get_instances)]}
+    out = []
+    for pk in ("N", "L", "D"):
+        for pid, p in enumerate(list(reg.objs[pk]), 1):
+            for ck, fn in fns[pk]:
+                for key in ("name", "eid"):
+                    for v in LOOKUP_VALUES:
+                        try:
+                            res = [reg.id_of(x, ck) for x in fn(p, v, key=KEYMAP[key])]
+                        except Exception:
+                            res = [-1]
+                        out.append({"pk": pk, "p": pid, "ck": ck, "key": key, "val": v, "res": res})
+    return out
+
+
 def project(reg):
     """pi: the implementation's state as the specification's state record.
 
@@ -132,6 +157,8 @@ def project(reg):
     while True:
         before = {k: reg.count(k) for k in KINDS}
         st = _project_once(reg)
+        if LOOKUP_VALUES:
+            st["lookup"] = _lookup_table(reg)
         if all(reg.count(k) == before[k] for k in KINDS):
             return st
 
@@ -309,7 +336,7 @@ def _do(reg, c):
         n = reg.get("N", c["n"])
         n.top_instance = reg.get("D", c["d"])
         return [("I", n.top_instance)]
-    if op in ("set_item", "del_item", "pop_item", "set_name", "del_name"):
+    if op in ("set_item", "del_item", "pop_item", "set_name", "del_name", "set_name_none"):
         e = reg.get(c["kind"], c["x"])
         if op == "set_item":
             e[KEYMAP[c["key"]]] = c["val"]
@@ -319,6 +346,8 @@ def _do(reg, c):
             e.pop(KEYMAP[c["key"]])
         elif op == "set_name":
             e.name = c["val"]
+        elif op == "set_name_none":
+            e.name = None
         else:
             del e.name
         return []
